@@ -80,6 +80,94 @@ func init() {
 	})
 }
 
+func cclock(h *harnessSpec) *harnessSpec { h.concreteClock = true; return h }
+
+// orch builds a harness spec for the ORCH / FULL compositions: concrete logical clock,
+// timers fire at quiescence only, delay bound d.
+func orch(pkg, name string, d int, desc string, reach ...string) *harnessSpec {
+	h := hs(pkg, name, d, desc, reach...)
+	h.concreteClock, h.maximalProgress = true, true
+	h.noNative = true
+	return h
+}
+
+func withD(hs []*harnessSpec, d int, maxPaths int) []*harnessSpec {
+	var out []*harnessSpec
+	for _, h := range hs {
+		c := *h
+		c.preemptionBound = d
+		c.maxPaths = maxPaths
+		out = append(out, &c)
+	}
+	return out
+}
+
+func init() {
+	pkgRC := modulePath + "/lambda/rapidcore"
+	pkgRapid := modulePath + "/lambda/rapid"
+	orchAssume := []string{
+		"compositions: real rapidContext / registration service / flows / rendering / Runtime+Extensions API handler bodies / middleware (and, in the FULL harnesses, the real rapidcore.Server and SandboxContext) executed from go/ssa; fake supervisor, scripted runtime/extension processes and recording writers are harness code",
+		"time is a logical clock; timers fire only when no thread can run (maximal progress)",
+		"delay-bounded schedules: at most D deviations from the deterministic round-robin non-preemptive scheduler; context switches only at synchronisation operations",
+		"identifiers, ARN and trace header are concrete; event and response payloads are symbolic byte sequences of any length up to the limit",
+	}
+	orchOutside := []string{"real sockets / HTTP framing / chi routing", "real processes and signals (fake supervisor: Kill and Terminate make the process exit and post its event)", "schedules needing more than D delays", "more extensions / invocations than the harness instantiates"}
+
+	c03 := []*harnessSpec{
+		orch(pkgRapid, "VerifC03Init0", 2, "init + first invocation, no extensions", "done"),
+		orch(pkgRapid, "VerifC03Init1I", 2, "1 external extension (INVOKE) + a directory entry", "done"),
+		orch(pkgRapid, "VerifC03Init2IS", 2, "2 external extensions (INVOKE / SHUTDOWN)", "done"),
+		orch(pkgRapid, "VerifC03Init1I1", 2, "1 external + 1 internal extension registering from inside the runtime", "done"),
+		orch(pkgRapid, "VerifC03Init0I1", 2, "1 internal extension only", "done"),
+	}
+	c03t := append(withD(c03, 3, 2000000), orch(pkgRapid, "VerifC03Init3", 2, "3 external extensions", "done"))
+	checkRegistry = append(checkRegistry, &checkSpec{id: "C03", level: "other", quick: c03, thorough: c03t, assume: orchAssume, outside: orchOutside})
+
+	c04 := []*harnessSpec{
+		orch(pkgRapid, "VerifC04Invoke2_1", 2, "2 consecutive invocations, 1 extension subscribed to INVOKE+SHUTDOWN", "done"),
+		orch(pkgRapid, "VerifC04Invoke2_2", 2, "2 invocations, 2 extensions (one subscribed to INVOKE, one to nothing)", "done"),
+		orch(pkgRapid, "VerifC04Invoke2_I1", 2, "2 invocations, 1 external + 1 internal extension", "done"),
+	}
+	c04t := append(withD(c04, 3, 2000000), orch(pkgRapid, "VerifC04Invoke3_1", 2, "3 invocations, 1 extension", "done"))
+	checkRegistry = append(checkRegistry, &checkSpec{id: "C04", level: "other", quick: c04, thorough: c04t, assume: orchAssume, outside: orchOutside})
+
+	srvSeq := func(name string, d int, desc string, reach ...string) *harnessSpec {
+		h := maxprog(hs(pkgRC, name, d, desc, reach...))
+		h.noNative = true
+		return h
+	}
+	c01 := []*harnessSpec{
+		orch(pkgRC, "VerifFullHealthy2Ext", 2, "FULL stack: response then error, 1 extension", "respond", "error", "scenario-done"),
+		orch(pkgRC, "VerifFullStale", 2, "FULL stack: stale-id, duplicate and normal submissions", "stale", "double", "scenario-done"),
+		orch(pkgRC, "VerifFullRespondExit", 2, "FULL stack: response delivered, then the runtime exits; next invocation", "respond-exit", "scenario-done"),
+		srvSeq("VerifC01Sequence2", 2, "Server.Invoke x2 against the stub sandbox, symbolic behaviour per invocation", "respond", "error", "crash", "respond-crash", "wrong-id"),
+	}
+	c01t := append(withD(c01, 3, 3000000), orch(pkgRC, "VerifFullAny2", 2, "FULL stack: any of 7 runtime behaviours for each of 2 invocations", "scenario-done"))
+	checkRegistry = append(checkRegistry, &checkSpec{id: "C01", level: "other", quick: c01, thorough: c01t, assume: orchAssume, outside: append(orchOutside, "front-end HTTP handler mapping (cmd/aws-lambda-rie) and base64 client context")})
+
+	c02 := []*harnessSpec{
+		orch(pkgRC, "VerifFullStale", 2, "FULL stack: stale-id (400), duplicate (refused) and normal submissions through validator + handlers + Server", "stale", "double", "scenario-done"),
+		srvSeq("VerifC01Sequence2", 2, "Server.Invoke x2, stale id then right id", "wrong-id"),
+	}
+	checkRegistry = append(checkRegistry, &checkSpec{id: "C02", level: "other", quick: c02, thorough: withD(c02, 3, 3000000), assume: orchAssume, outside: orchOutside})
+
+	c05 := []*harnessSpec{
+		orch(pkgRC, "VerifFullTimeoutThenOK", 2, "FULL stack: runtime stalls, timeout reset, next invocation on fresh processes", "timeout", "respond", "scenario-done"),
+		orch(pkgRC, "VerifFullTimeoutExt", 2, "FULL stack: stall with 1 extension (INVOKE+SHUTDOWN)", "timeout", "scenario-done"),
+		orch(pkgRC, "VerifFullStallThenStall", 2, "FULL stack: two consecutive timeouts", "timeout", "scenario-done"),
+		srvSeq("VerifC01Sequence1", 2, "Server.Invoke against the stub sandbox incl. stall", "timeout"),
+	}
+	checkRegistry = append(checkRegistry, &checkSpec{id: "C05", level: "other", quick: c05, thorough: withD(c05, 3, 3000000), assume: orchAssume, outside: append(orchOutside, "wall-clock bound of the answer (logical time only)", "stalls during extension registration / runtime init (see C03 harness for the barrier)")})
+
+	c06 := []*harnessSpec{
+		orch(pkgRC, "VerifFullExitThenOK", 2, "FULL stack: runtime exits after receiving the invocation; next invocation recovers", "exit", "respond", "scenario-done"),
+		orch(pkgRC, "VerifFullExitExt", 2, "FULL stack: runtime exit with 1 extension", "exit", "scenario-done"),
+		orch(pkgRC, "VerifFullRespondExit", 2, "FULL stack: exit after the response was delivered", "respond-exit", "scenario-done"),
+		orch(pkgRC, "VerifFullExitThenStall", 2, "FULL stack: exit, then a stall in the next generation", "exit", "timeout", "scenario-done"),
+	}
+	checkRegistry = append(checkRegistry, &checkSpec{id: "C06", level: "other", quick: c06, thorough: withD(c06, 3, 3000000), assume: orchAssume, outside: append(orchOutside, "extension crashes / init errors (to be added)", "exit codes vs signals (the fake supervisor reports status 1)")})
+}
+
 func findCheck(id string) *checkSpec {
 	for _, c := range checkRegistry {
 		if c.id == id {
